@@ -21,8 +21,9 @@ class AnalysisIncomplete(Exception):
 
 
 class ModuleInfo:
-    def __init__(self, name, path, tree, src, is_pkg):
+    def __init__(self, name, path, tree, src, is_pkg, root=None):
         self.name = name
+        self.root = root or REPO
         self.path = path
         self.tree = tree
         self.src = src
@@ -35,7 +36,7 @@ class ModuleInfo:
 
     @property
     def relpath(self):
-        return os.path.relpath(self.path, REPO)
+        return os.path.relpath(self.path, self.root)
 
     def __repr__(self):
         return "<module %s>" % self.name
@@ -260,7 +261,7 @@ class Program:
                     tree = ast.parse(src, filename=path)
                 except SyntaxError as e:
                     raise AnalysisIncomplete("syntax error in %s: %s" % (path, e))
-                mod = ModuleInfo(name, path, tree, src, is_pkg)
+                mod = ModuleInfo(name, path, tree, src, is_pkg, root=self.repo)
                 self.modules[name] = mod
                 self._index(mod)
 
